@@ -157,6 +157,21 @@ def run(ctx) -> None:
     from .c04 import check_step_loop
 
     check_step_loop(ctx, "C01.R3", "C01.R3")
+    # a node that has never executed needs execution — unconditionally (values the caller supplied for its
+    # outputs do not stand in for it: an upstream output wins over a run-time value once the producer can run)
+    ne = db.func("runners._shared.helpers._needs_execution")
+    ncfg = ctx.cfg(ne)
+    never_atoms = {}
+    for t in ncfg.nodes:
+        if t.kind == "test" and t.ast is not None:
+            for a in test_atoms(t.ast):
+                if isinstance(a, ast.Compare) and len(a.ops) == 1 and isinstance(a.ops[0], (ast.In, ast.NotIn)) and src(a.comparators[0]).endswith(".node_executions"):
+                    never_atoms[src(ast.Compare(a.left, [ast.NotIn()], a.comparators))] = True
+                    never_atoms[src(ast.Compare(a.left, [ast.In()], a.comparators))] = False
+    live_never = reachable(ncfg.entry, specialize(never_atoms, ncfg)) if never_atoms else set()
+    rets_never = [r for r in live_never if r.kind == "stmt" and isinstance(r.ast, ast.Return)]
+    okn = bool(never_atoms) and bool(rets_never) and all(isinstance(r.ast.value, ast.Constant) and r.ast.value.value is True for r in rets_never)
+    rep.add("C01.R3", f"{ne.qname}:never-executed-needs-execution", okn, ne.loc(), "a node without an execution record always needs execution" if okn else f"a node that has never executed can be judged not to need execution ('{src(rets_never[0].ast)[:70] if rets_never else '?'}'): a satisfiable node is silently not scheduled and a supplied run-time value shadows the upstream output")
 
     # ---- R4 ---------------------------------------------------------------------
     gstate = db.cls("runners._shared.types.GraphState")
